@@ -148,6 +148,84 @@ def init_job(interp, c, case):
             c.failures[-1]["replay"] = {"kind": "reinit", "which": kind, "how": how}
 
 
+def _snap(obj):
+    out = {}
+    for k, v in obj.__dict__["_f"].items():
+        if isinstance(v, np.ndarray):
+            out[k] = ("arr", [x for x in v.flat])
+        elif isinstance(v, (list, tuple)):
+            out[k] = ("seq", list(v))
+        elif isinstance(v, dict):
+            out[k] = ("map", dict(v))
+        else:
+            out[k] = ("val", v)
+    return out
+
+
+def _snap_same(a, b):
+    bad = []
+    for k in a:
+        ka, va = a[k]
+        kb, vb = b.get(k, (None, None))
+        if ka != kb:
+            bad.append(k)
+        elif ka in ("arr", "seq"):
+            if len(va) != len(vb) or not all(x is y or (not is_sym(x) and not is_sym(y) and x == y) for x, y in zip(va, vb)):
+                bad.append(k)
+        elif ka == "map":
+            if va.keys() != vb.keys() or not all(va[q] is vb[q] or va[q] == vb[q] for q in va):
+                bad.append(k)
+        elif not (va is vb or (not is_sym(va) and not is_sym(vb) and va == vb)):
+            bad.append(k)
+    return bad
+
+
+def stateless_job(interp, c, case):
+    """the objects a model is made of (rules, rate laws, delays) carry no memory: using them - as any simulation does - leaves
+    every field of theirs as it was, so a second simulation meets the same objects as the first"""
+    T = interp.load("bioscrape.types")
+    S = interp.load("bioscrape.simulator")
+    from .stubs import install_uniform
+    install_uniform(interp)
+    tf = 2
+    M = T.ns["Model"](species=["A", "B", "C"],
+                      reactions=[(["A", "A"], ["B"], "massaction", {"k": "k1"}), (["B"], [], "hillpositive", {"k": 1.0, "K": 2.0, "n": 2, "s1": "A"}),
+                                 (["C"], ["A"], "general", {"rate": "k1*C/(1 + A)"}),
+                                 (["B"], [], "massaction", {"k": 0.5}, "gaussian", [], ["C"], {"mean": 1.0, "std": 0.1})],
+                      parameters=[("k1", 1.5)],
+                      rules=[("assignment", {"equation": "C = A + B"}, "repeated"), ("assignment", {"equation": "B = A + 1"}, "dt"),
+                             ("assignment", {"equation": "A = 40"}, tf), ("additive", {"equation": "C = A + A"}, "start"),
+                             ("ode", {"equation": "k1", "target": "A"})],
+                      initial_condition_dict={"A": 3, "B": 4})
+    itf = S.ns["ModelCSimInterface"](M)
+    itf.py_set_dt(c.real("dt", lo=0, lo_strict=True))
+    objs = [("rule %d (%s)" % (i, r.__dict__["_cls"].name), r) for i, r in enumerate(M.repeat_rules)] + \
+           [("rate law %d (%s)" % (i, p_.__dict__["_cls"].name), p_) for i, p_ in enumerate(M.propensities)] + \
+           [("delay %d (%s)" % (i, d_.__dict__["_cls"].name), d_) for i, d_ in enumerate(M.delays)]
+    before = [(_n, _snap(o)) for _n, o in objs]
+    V = c.real("V", lo=0, lo_strict=True)
+    for t in (0, tf, c.real("t_any", lo=0)):
+        for rs in (1, 0):
+            x = sym_array(c, "x", 3, "real", lo=0)
+            itf.apply_repeated_rules(ptr(interp, x), t, rs)
+            itf.apply_repeated_volume_rules(ptr(interp, x), V, t, rs)
+            d = np.zeros(4, dtype=object)
+            itf.compute_stochastic_propensities(ptr(interp, x), ptr(interp, d), t)
+            itf.compute_stochastic_volume_propensities(ptr(interp, x), ptr(interp, d), V, t)
+            itf.compute_propensities(ptr(interp, x), ptr(interp, d), t)
+            itf.compute_delay(ptr(interp, x), 3)
+    changed = []
+    for (nm, b), (_, o) in zip(before, objs):
+        bad = _snap_same(b, _snap(o))
+        if bad:
+            changed.append("%s: %s" % (nm, bad))
+    ok = c.prove(not changed, "applying the rules and evaluating the rate laws and delays of a model (at the start, at a rule's firing time, at "
+                              "any time; with and without the step flag) leaves every field of those objects unchanged (changed: %s)" % changed,
+                 info={"sig": "model objects keep memory of being used: %s" % changed, "what": "stateless %s" % changed})
+    if ok is False:
+        c.failures[-1]["replay"] = {"kind": "twice"}
+
+
 def follow_job(interp, c, case):
     """an interface built on a model keeps following the model's value edits (it shares the model's arrays), also across a
     repeated initialisation - so that any history ending in the same definition simulates like a fresh model"""
@@ -393,6 +471,7 @@ def check(tier):
                 continue
             ck.add("init/%s/%s" % (kind, how), "harness.C08", "init_job", dict(cases=[(kind, how)]), fresh=True)
     ck.add("edits", "harness.C08", "edit_job", dict(cases=[()]), fresh=True)
+    ck.add("model-objects-stateless", "harness.C08", "stateless_job", dict(cases=[()]), fresh=True)
     ck.add("interface-follows-model", "harness.C08", "follow_job",
            dict(cases=[(k_, r_, s_) for k_ in ("species", "params") for r_ in (False, True) for s_ in (False, True)]), fresh=True)
     ck.add("deterministic", "harness.C08", "rhs_job", dict(cases=[()]), fresh=True)
